@@ -153,6 +153,16 @@ def _emits(node):
     return sorted(out, key=lambda x: (x[0].lineno, x[0].col_offset))
 
 
+def _owner_loop(root, node):
+    """innermost loop of `root` (inclusive) that contains node"""
+    best = None
+    for lp in ast.walk(root):
+        if isinstance(lp, (ast.For, ast.While)) and any(x is node for x in ast.walk(lp)):
+            if best is None or any(x is lp for x in ast.walk(best)):
+                best = lp
+    return best
+
+
 def splitter(px):
     """(driver, splitter function, chunk loop, consumer loop or None).  The splitter is the function that loops over the chunks of the
     template generator: _generate_with_line_buffer itself, or a private generator it iterates
@@ -190,6 +200,11 @@ def rule_driver(ctx, px):
     ok = len(loops) == 1 and ast.unparse(loops[0].iter) == pps
     ctx.ob(R, w.module.rel, f"{w.short} :: iterates the whole processor list in order", ok,
            "" if ok else "processor loop is sliced, filtered, reversed or missing", w.node.lineno)
+    # the variable that carries the (line, terminator) pair through the processors: the parameter itself or a local seeded with it
+    seeds = [s_.targets[0].id for s_ in w.node.body if isinstance(s_, ast.Assign) and len(s_.targets) == 1 and isinstance(s_.targets[0], ast.Name)
+             and isinstance(s_.value, ast.Name) and s_.value.id == tup and (not loops or s_.lineno < loops[0].lineno)]
+    if seeds:
+        tup = seeds[-1]
     if ok:
         lp = loops[0]
         v = lp.target.id if isinstance(lp.target, ast.Name) else "?"
@@ -226,6 +241,32 @@ def rule_driver(ctx, px):
     inner = [c for c, _ in _emits(cl)]
     ctx.ob(R, g.module.rel, f"{g.short} :: completed lines are handed to _filter_and_write_line", len(inner) >= 1,
            "" if inner else "no call inside the chunk loop", cl.lineno)
+    # ... and nothing reaches the output stream past the processors: inside the driver / splitter the stream is written by
+    # _filter_and_write_line only, and no chunk leaves the scanning loop early
+    out_param = drv.node.args.args[1].arg
+    direct = []
+    for fn_ in {id(drv): drv, id(g): g}.values():
+        for c in ast.walk(fn_.node):
+            if not isinstance(c, ast.Call):
+                continue
+            is_fwl = (isinstance(c.func, ast.Attribute) and c.func.attr == "_filter_and_write_line") or (isinstance(c.func, ast.Name) and c.func.id == "_filter_and_write_line")
+            if isinstance(c.func, ast.Attribute) and c.func.attr in ("write", "writelines") and ast.unparse(c.func.value) == out_param:
+                direct.append(c)      # written in place
+            elif not is_fwl and any(isinstance(a, ast.Name) and a.id == out_param for a in list(c.args) + [k.value for k in c.keywords]) \
+                    and not (consumer is not None and c is consumer.iter):
+                direct.append(c)      # the stream handed to something else that may write it
+    chunk_name = ast.unparse(cl.target)
+
+    def _empty_chunk_guard(x):
+        terms = pyfront.guard_terms(pyfront.guards_of(g.node, x) or ())
+        return any((e.replace(" ", "") in (f"not{chunk_name}", f"len({chunk_name})==0", f"{chunk_name}==''") and p_) or
+                   (e.replace(" ", "") in (chunk_name, f"len({chunk_name})>0", f"len({chunk_name})") and not p_) for e, p_ in terms)
+    skips = [x for x in ast.walk(cl) if isinstance(x, ast.Continue) and _owner_loop(cl, x) is cl and not _empty_chunk_guard(x)]
+    ok = not direct and not skips
+    ctx.ob(R, g.module.rel, f"{g.short} :: text reaches the output only through _filter_and_write_line", ok,
+           "" if ok else f"{len(direct)} direct use(s) of the output stream / {len(skips)} chunk(s) leaving the scan early (line {[d.lineno for d in direct + skips]}): "
+           "lines written past the processors are not trimmed and, worse, not seen by stateful processors (LimitEmptyLines keeps counting across them), "
+           "so the result depends on how the template output was chunked", cl.lineno)
     model = driver_model(g, cl)
     after = [st for st in g.node.body[g.node.body.index(cl) + 1:]]
     flush_ev = [ev for st in after for ev in _emits(st)]
@@ -360,6 +401,27 @@ def rule_straddle(ctx, px):
                            for e, p in terms)
             keeps = isinstance(stmt, ast.Assign) and isinstance(stmt.value, ast.BoolOp)
             (repairs if (nonempty or keeps) else weak).append(n)
+    # idiom 1 through a private helper: the carried text is handed to a helper that inspects the end of that very parameter
+    for c in ast.walk(g.node):
+        if not isinstance(c, ast.Call):
+            continue
+        for h in px.resolve_call(g, c, by_name_fallback=False):
+            if h.module is not g.module or not h.name.startswith("_") or h is g:
+                continue
+            hp = [a.arg for a in h.node.args.args]
+            if hp and hp[0] in ("self", "cls") and isinstance(c.func, ast.Attribute):
+                hp = hp[1:]
+            for prm, arg in zip(hp, c.args):
+                at = ast.unparse(pyfront.subst_locals(g.node, arg))
+                if not ("getvalue()" in at or at in carried):
+                    continue
+                for n in ast.walk(h.node):
+                    if isinstance(n, ast.Call) and isinstance(n.func, ast.Attribute) and n.func.attr == "endswith" and n.args and isinstance(n.args[0], ast.Constant) \
+                            and n.args[0].value in first_chars and ast.unparse(n.func.value) == prm:
+                        repairs.append(n)
+                    if isinstance(n, ast.Compare) and isinstance(n.left, ast.Subscript) and ast.unparse(n.left.slice) in ("-1", "-1:") and ast.unparse(n.left.value) == prm \
+                            and any(isinstance(k, ast.Constant) and k.value in first_chars for k in n.comparators):
+                        repairs.append(n)
     ok = width <= 1 or (not scans_chunk_only) or bool(repairs)
     why = ("single-character terminators cannot straddle" if width <= 1 else
            "the carried text is scanned together with the chunk" if not scans_chunk_only else
